@@ -203,7 +203,12 @@ Definition mape_of (d : list (Q * Q)) (mn : Q) : val :=
 
 Definition r_squared_adj_of (pl : policy) (r2 : option Q) (n ddof : Z) (mn : Q) : val :=
   match r2 with
-  | None => NaN
+  | None =>
+      (* the numerator is NaN: "NaN > 10 min" is false, so only the repaired rule can answer None *)
+      match pl with
+      | Repaired => if Qle_bool (inject_Z (ddof - 1)) mn then Undef else NaN
+      | AsCoded => NaN
+      end
   | Some r =>
       match sdiv pl ((1 - r) * inject_Z (n - 1)) (inject_Z (ddof - 1)) mn with
       | RNone => Undef
@@ -287,7 +292,7 @@ Definition val_ltb (v : val) (t : Q) : bool :=
 Definition val_gtb (v : val) (t : Q) : bool :=
   match v with
   | Num q => Qltb t q
-  | Root neg s => if Qltb t 0 then (negb neg || Qltb (sqr t) s) else (negb neg && Qltb (sqr t) s)
+  | Root neg s => if Qltb t 0 then (negb neg || Qltb s (sqr t)) else (negb neg && Qltb (sqr t) s)
   | Inf neg => negb neg
   | Undef | NaN => false
   end.
